@@ -26,11 +26,19 @@ static int fd_filter[64];
 static int nfd_filter = 0;
 static pthread_mutex_t mu = PTHREAD_MUTEX_INITIALIZER;
 
+static void note_fired(void) {
+  /* written at once: a tool that aborts because of the fault never reaches atexit */
+  const char *p = getenv("PV_FAULT_REPORT");
+  if (!p) return;
+  int fd = syscall(SYS_open, p, 02001 | 0100, 0644);
+  if (fd >= 0) { syscall(SYS_write, fd, "fired=1\n", 8); syscall(SYS_close, fd); }
+}
+
 static void report(void) {
   const char *p = getenv("PV_FAULT_REPORT");
   if (!p) return;
   char buf[128];
-  int n = snprintf(buf, sizeof buf, "calls=%ld fired=%ld\n", calls, fired);
+  int n = snprintf(buf, sizeof buf, "calls=%ld r=%ld w=%ld f=%ld c=%ld\n", calls, counts[0], counts[1], counts[2], counts[3]);
   int fd = syscall(SYS_open, p, 02001 | 0100, 0644);   /* O_WRONLY|O_APPEND|O_CREAT */
   if (fd >= 0) { syscall(SYS_write, fd, buf, n); syscall(SYS_close, fd); }
 }
@@ -90,7 +98,7 @@ static long decide(int op, size_t count) {
   ++calls;
   for (int i = 0; i < nrules; ++i) {
     if (rules[i].op == op && rules[i].k == k) {
-      ++fired;
+      ++fired; note_fired();
       if (rules[i].kind == 0) { errno = EINTR; res = -1; }
       else if (rules[i].kind == 2) { errno = (int)rules[i].arg; res = -1; }
       else res = rules[i].arg;
@@ -100,8 +108,8 @@ static long decide(int op, size_t count) {
   }
   if (use_random && op < 2) {
     unsigned x = rnd() % 100;
-    if ((int)x < p_eintr) { ++fired; errno = EINTR; res = -1; }
-    else if ((int)x < p_eintr + p_short && count > 1) { ++fired; res = 1 + rnd() % (count - 1); }
+    if ((int)x < p_eintr) { ++fired; note_fired(); errno = EINTR; res = -1; }
+    else if ((int)x < p_eintr + p_short && count > 1) { ++fired; note_fired(); res = 1 + rnd() % (count - 1); }
   }
   pthread_mutex_unlock(&mu);
   return res;
